@@ -69,7 +69,7 @@ def run(prop, tier):
     if res_b.ok or not any("LevelUsedIsLevelPassed" in e for e in res_b.errors):
         raise Machinery("MC_UpperLimit: the instance that drops `level` in the automatic mode is NOT rejected by LevelUsedIsLevelPassed "
                         f"(errors: {res_b.errors}) -- the invariant is vacuous")
-    cases = open(res.cases_path).read().splitlines()
+    cases = sorted(open(res.cases_path).read().splitlines())   # TLC's workers print in a run-dependent order
     rnd = random.Random(sd)
     rnd.shuffle(cases)
     reals = real_cases(REAL[tier], rnd)
